@@ -26,6 +26,13 @@ class MethodSignature(LeafExpr):
             )
         elif len(methodName) == 0:
             raise TealInputError("invalid input empty string to Method")
+        elif any(c in methodName for c in '"\\\n\r'):
+            # the signature is emitted between double quotes on one line of TEAL
+            raise TealInputError(
+                "invalid method signature {!r}: it may not contain quotes, backslashes or line breaks".format(
+                    methodName
+                )
+            )
         self.methodName = methodName
 
     def __teal__(self, options: "CompileOptions"):
